@@ -113,6 +113,16 @@ def run_case(spec):
     s, rc, key = make_pair(world, relay=relay, listen_s=listen_s, listen_r=listen_r,
                            relay_r=(RELAY2_HINT if two_relays else None))
     hs, hr = hints_of(s), hints_of(rc)
+    asked_again = 0
+    if spec["seed"] % 6 == 3:
+        # the application asks for its hints a second time (a GUI refresh, hints sent again) after the host's set of
+        # addresses has changed; the peer still uses the first batch
+        saved = list(world.local_addresses)
+        world.local_addresses = saved[:1] + rng.sample(ADDRS, rng.randint(1, 3)) + ["10.0.0.9"]
+        for t_ in rng.sample([s, rc], rng.randint(1, 2)):
+            hints_of(t_)
+            asked_again += 1
+        world.local_addresses = saved
     # some addresses of each side are unreachable from the other
     bad = {}
     for h in [x for x in hs + hr if x["type"] == "direct-tcp-v1"]:
